@@ -255,6 +255,11 @@ def avgDistanceMatrix (metric : Int) (ts : List T) : Out (List String × List (L
   | .panic e => .panic e
   | .ok s => .ok (avgFinish s)
 
+/-- `AvgDistanceMatrix` on the records of the channel (`Trees{Tree, Id, Err}` without `Err`): the
+    code never reads `Id` (`ntrees++` counts the trees) -/
+def avgDistanceMatrixIds (metric : Int) (items : List (Int × T)) : Out (List String × List (List Rat)) :=
+  avgDistanceMatrix metric (items.map (·.2))
+
 /-- the same before fix 55aaa9d (kept as a regression witness, see `avg_pinned_fails`) -/
 def avgDistanceMatrixPinned (metric : Int) (ts : List T) : Out (List String × List (List Rat)) :=
   match avgLoopG true metric {} ts with
